@@ -246,13 +246,15 @@ def threadItem (p : Params) (l : Loop) (i : Nat) (c : Conn) (it : Item) (gone : 
 /-- pool full: `job.denyConnection(...)` in the acceptor thread (svr_threads.py:196-199) -/
 def threadDeny (p : Params) (l : Loop) (i : Nat) (c : Conn) (it : Item) (gone : Bool) : Loop :=
   let r := doDeny c it gone
-  -- the connection ends either way: `csock.close()`, or SocketConnection.__del__ when the job object is dropped
-  let l := setConn l i (closeNoHook r.conn)
   match r.esc with
-  | none => l
+  | none => setConn l i (closeNoHook r.conn)
   | some e =>
-    if caught p.cfg.thrDeny e || caught p.cfg.thrEvents e || caught p.cfg.thrLoop e then l
-    else { l with running := false }              -- the exception leaves loop() and requestLoop()
+    if caught p.cfg.thrDeny e then setConn l i (closeNoHook r.conn)
+    else
+      -- `csock.close()` is skipped: the socket stays open until the job object is garbage collected
+      let l := { setConn l i r.conn with zombie := l.zombie ++ [i] }
+      if caught p.cfg.thrEvents e || caught p.cfg.thrLoop e then l
+      else { l with running := false }            -- the exception leaves loop() and requestLoop()
 
 def threadStep (p : Params) (l : Loop) : Ev → Loop
   | .connect i =>
